@@ -137,6 +137,16 @@ def locate(func, loc):
         calls.sort(key=lambda x: (x.lineno, x.col_offset))
         c = _nth(calls, n, f"call of `{name}`")
         return _nth(c.args, k, f"argument {k} of `{name}`"), None
+    if kind == "call_arg_elt":
+        # n-th call whose func unparse == name; positional arg k must be a list/tuple display of exactly `size` elements; return element e
+        name, n, k, e, size = loc[1], loc[2], loc[3], loc[4], loc[5]
+        calls = [x for x in ast.walk(func) if isinstance(x, ast.Call) and ast.unparse(x.func) == name]
+        calls.sort(key=lambda x: (x.lineno, x.col_offset))
+        c = _nth(calls, n, f"call of `{name}`")
+        a = _nth(c.args, k, f"argument {k} of `{name}`")
+        if not isinstance(a, (ast.List, ast.Tuple)) or len(a.elts) != size:
+            raise ExtractError(f"argument {k} of `{name}` is not a list of {size} element(s): `{ast.unparse(a)}`")
+        return a.elts[e], None
     if kind == "kwarg":
         # n-th call whose func unparse == name; keyword kw
         name, n, kw = loc[1], loc[2], loc[3]
@@ -187,6 +197,11 @@ def locate(func, loc):
         ifs = [x for x in ifs if id(x) not in elifs]
         ifs.sort(key=lambda x: (x.lineno, x.col_offset))
         return _nth(ifs, loc[2] if len(loc) > 2 else 0, f"if statement containing `{loc[1]}`"), None
+    if kind == "assert_containing":
+        # n-th `assert <test>` whose test text contains loc[1]
+        asr = [x for x in ast.walk(func) if isinstance(x, ast.Assert) and loc[1] in ast.unparse(x.test)]
+        asr.sort(key=lambda x: (x.lineno, x.col_offset))
+        return _nth(asr, loc[2] if len(loc) > 2 else 0, f"assert containing `{loc[1]}`").test, None
     raise ExtractError(f"unknown locator {loc}")
 
 
@@ -254,6 +269,8 @@ class Tr:
         if t in self.consts:
             return self.consts[t]
         if t in self.opaque:
+            if self.opaque[t] not in self.vars:
+                self.vars.append(self.opaque[t])
             return self._typed_var(self.opaque[t])
         for rx, nm in self.opaque_re:
             if re.fullmatch(rx, t, flags=re.S):
@@ -492,7 +509,33 @@ class Tr:
             for p in reversed(parts[:-1]):
                 r = f"(List.zip {p} {r})"
             return r
+        if isinstance(e, ast.Call) and ast.unparse(e.func) in self.spec.get("listfuns", {}) and not e.keywords:
+            # library function on lists passed in as a function parameter (spec["listfuns"]: callee text -> parameter name; type in spec["sigs"])
+            fn = self.spec["listfuns"][ast.unparse(e.func)]
+            if fn not in self.funparams:
+                self.funparams.append(fn)
+            return "(" + fn + " " + " ".join(self.lst(a) for a in e.args) + ")"
         raise ExtractError(f"unsupported list expression `{t}`")
+
+    def index(self, e):
+        """`xs[i]` (result "Index"): `xs[k]?` for a literal k >= 0, the k-th element from the end for a literal -k (none when out of
+        range, where Python raises), `xs[i]?` for an index variable, and the gathered list for an index-list variable named in spec["gather"]."""
+        if not isinstance(e, ast.Subscript) or isinstance(e.slice, ast.Slice):
+            raise ExtractError(f"expected an indexing expression, got `{ast.unparse(e)}`")
+        base = self.lst(e.value)
+        s = e.slice
+        if isinstance(s, ast.Constant) and isinstance(s.value, int) and not isinstance(s.value, bool) and s.value >= 0:
+            return f"({base}[{s.value}]?)"
+        if isinstance(s, ast.UnaryOp) and isinstance(s.op, ast.USub) and isinstance(s.operand, ast.Constant) and isinstance(s.operand.value, int) and s.operand.value > 0:
+            k = s.operand.value
+            return f"(if {k} ≤ List.length {base} then {base}[List.length {base} - {k}]? else none)"
+        if isinstance(s, ast.Name):
+            n = self.var(s.id)
+            if n in self.spec.get("gather", []):
+                return f"(List.filterMap (fun i => {base}[i]?) {n})"
+            self.spec.setdefault("nats", set()).add(n)
+            return f"({base}[{n}]?)"
+        raise ExtractError(f"unsupported index `{ast.unparse(s)}`")
 
     def intexpr(self, e):
         """Int-valued expression over a non-Int carrier: int(a // b), int literals, int variables, conditionals"""
@@ -612,6 +655,7 @@ class Tr:
         raise ExtractError(f"unsupported comparison {type(op).__name__}")
 
 
+
 def translate(spec, src_cache):
     path = os.path.join(spec["_repo"], spec["file"])
     if path not in src_cache:
@@ -620,6 +664,13 @@ def translate(spec, src_cache):
         src_cache[path] = (text, ast.parse(text))
     text, tree = src_cache[path]
     func = _find_func(tree, spec["func"])
+    if spec["loc"][0] == "count_calls":
+        # static kernel: how many call sites of a given callee the function body contains (nested defs excluded unless asked)
+        callee = spec["loc"][1]
+        calls = [x for x in ast.walk(func) if isinstance(x, ast.Call) and ast.unparse(x.func) == callee]
+        lines = sorted(c.lineno for c in calls)
+        lean = f"/-- `{spec['file']}` `{spec['func']}`: number of call sites of `{callee}` (lines {lines}) -/\ndef {spec['name']} : Nat := {len(calls)}\n"
+        return lean, f"{len(calls)} call site(s) of {callee}", (lines[0] if lines else func.lineno), ast.get_source_segment(text, func)
     expr, lam_args = locate(func, spec["loc"])
     for step in spec.get("path", []):  # descend into the located expression: attribute names / indices of the ast
         try:
@@ -628,7 +679,7 @@ def translate(spec, src_cache):
             raise ExtractError(f"path step `{step}` does not exist in `{ast.unparse(expr) if isinstance(expr, ast.AST) else expr}`")
     if spec.get("path") and not isinstance(expr, ast.AST):
         raise ExtractError("path does not end at an expression")
-    tr = Tr(spec)
+    tr = spec.get("tr_class", Tr)(spec)  # a kernel spec may name a subclass of Tr that understands a few more source forms
     if lam_args is not None and "params" not in spec:
         for a in lam_args:
             tr.var(a)
@@ -644,6 +695,8 @@ def translate(spec, src_cache):
         body = f"Rex.FloorDiv.fdiv {tr.num(expr.args[0].left)} {tr.num(expr.args[0].right)}"
     elif spec.get("result") == "List":
         body = tr.lst(expr)
+    elif spec.get("result") == "Index":
+        body = tr.index(expr)
     elif spec.get("result") == "Block":
         if not isinstance(expr, (ast.FunctionDef, ast.AsyncFunctionDef)):
             raise ExtractError("Block kernels need the locator (\"body\",)")
@@ -664,6 +717,8 @@ def translate(spec, src_cache):
     ps = []
     sigs = spec.get("sigs", {})  # function parameter -> Lean type (default: carrier → carrier)
     types = spec.get("types", {})  # parameter -> Lean type (default: carrier)
+    if sigs:  # stable parameter order: the declared order, independent of the order of use in the source
+        tr.funparams.sort(key=lambda f: list(sigs).index(f) if f in sigs else -1)
     for fn in tr.funparams:
         if fn in sigs:
             ps.append(f"({fn} : {sigs[fn]})")
@@ -681,6 +736,8 @@ def translate(spec, src_cache):
             ps.append(f"({p} : List {elem if spec.get('result') == 'List' else tr.ty})")
         elif p in nats:
             ps.append(f"({p} : Nat)")
+        elif p in spec.get("strs", []):
+            ps.append(f"({p} : String)")
         elif p in tr.bools:
             ps.append(f"({p} : Bool)")
         elif p in enums:
